@@ -230,6 +230,66 @@ def stage2_options(rng):
     return dict(items)
 
 
+INDENT_FRAG = ["case", "when", "then", "else", "end", "case when", "select", "from", "where", "values", "(", ")", ",", "a", "b",
+               "1", "x", "f(", "f(a,b)", "between", "and", "or", "insert into t", "set", "join", "left join", "on", "group by",
+               "order by", "limit", "union", ";", "\n", " ", "  ", "/*c*/", "--c\n", "as", "in", "=", "+", "over", "[", "]",
+               "create table", "update", "delete", "having", "count(*)", "(select", "values (1,2),(3,4)",
+               "case a when 1 then 2 end", "'s'", "t.*", "*", "distinct", "for", "offset", "straight_join", "natural join",
+               "cross join", "full outer join", "group  by", "order\nby", "END", "Case", "long_identifier_name_1",
+               "another_long_name", "f(aaaaaaaa, bbbbbbbbb, cccccccc)", "x between 1 and 2", "between between", "and and",
+               "values (1, 'a'), (2, 'b')", "/*+ h */", "\t", ", ", "a, b, c", "(a, b)", "select a, b from t", "count(a) over (partition by b)"]
+
+
+def indent_frag(rng, maxn=14):
+    return ''.join(rng.choice(INDENT_FRAG) + rng.choice([' ', ' ', ' ', '', '\n']) for _ in range(rng.randint(1, maxn)))
+
+
+def indent_texts(seed, n):
+    rng = random.Random('vi-%d' % seed)
+    k = max(200, n // 6)
+    gs = gram_scripts(seed + 7, k)
+    return ([gen.mixed(rng) for _ in range(k)] + [fmt_frag(rng) for _ in range(k)] + [indent_frag(rng) for _ in range(2 * k)]
+            + gs + [decorate(rng, s) for s in gs])
+
+
+def reindent_spec_random(rng):
+    return streams.reindent_spec(char=rng.choice([' ', ' ', ' ', '\t']), width=rng.randint(1, 8),
+                                 wrap_after=rng.choice([0, 0, 1, 5, 10, 20, 40, 80, rng.randint(0, 80)]),
+                                 comma_first=rng.random() < .3, indent_columns=rng.random() < .3, compact=rng.random() < .3,
+                                 indent_after_first=rng.random() < .3)
+
+
+def indent_chain(rng, which):
+    r = reindent_spec_random(rng)
+    a = 'aligned:' + rng.choice(['20', '20', '9'])
+    if which == 'reindent':
+        return rng.choice([r, 'stripws,' + r, 'stripws,' + r, 'stripcomments,stripws,' + r, 'spaces,stripws,' + r,
+                           'stripws,' + r + ',outpython:1'])
+    if which == 'aligned':
+        return rng.choice([a, 'stripws,' + a, 'stripws,' + a, 'stripcomments,stripws,' + a])
+    return 'stripws,%s,%s' % (r, a)
+
+
+def format_options(rng):
+    """option sets for the end-to-end stream: mostly valid, all stages"""
+    o = {}
+    table = [('keyword_case', ['upper', 'lower', 'capitalize'], .2), ('identifier_case', ['upper', 'lower', 'capitalize'], .15),
+             ('truncate_strings', [2, 3, '5', 10], .1), ('truncate_char', ['…', '', '[...]', 5], .08),
+             ('use_space_around_operators', [True, 1, False], .2), ('strip_comments', [True, 1, False], .25),
+             ('strip_whitespace', [True, 1.0, False], .25), ('output_format', ['python', 'php', 'sql'], .15),
+             ('right_margin', [None, 12], .02), ('indent_tabs', [True, False], .15), ('indent_width', [1, 2, 3, 4, 8, '3', 0], .25),
+             ('reindent', [True, True, 1, False], .45), ('reindent_aligned', [True, True, False], .25),
+             ('compact', [True, False], .2), ('comma_first', [True, False], .2), ('indent_columns', [True, False], .2),
+             ('indent_after_first', [True, False], .2), ('wrap_after', [0, 1, 5, 10, 20, 40, 80, '15', -1], .3),
+             ('bogus', [1], .01)]
+    for k, vals, p in table:
+        if rng.random() < p:
+            o[k] = rng.choice(vals)
+    items = list(o.items())
+    rng.shuffle(items)
+    return dict(items)
+
+
 # ---------------------------------------------------------------------------------------------
 TREE_STREAMS = ['stripcomments', 'stripws', 'spaces', 'semicolon', 'outpython:1', 'outphp:2',
                 'spaces,stripcomments,stripws', 'stripcomments,stripws,outpython:3', 'stripws,stripws', 'spaces,spaces',
@@ -297,6 +357,29 @@ def main():
             n += streams.s_fmtstmt(ctx, inputs[j:j + 5000])
         print('S-FMT2 done: %d statements, %.0fs' % (n, time.time() - t0), flush=True)
 
+    for which in ('reindent', 'aligned', 'both'):
+        if not (want('trees-' + which) or want('trees')):
+            continue
+        rng = random.Random('vtr-%s-%d' % (which, a.seed))
+        tx = indent_texts(a.seed * 100 + len(which), a.n)
+        inputs = [(t, indent_chain(rng, which)) for t in tx]
+        n = 0
+        name = 'S-TREES[%s]' % which
+        for j in range(0, len(inputs), 4000):
+            n += streams.s_treescript(ctx, inputs[j:j + 4000], stream=name)
+        # scripts of mutated trees, two or three statements each (reaches the exception paths)
+        mt = mutated_trees(a.seed * 100 + 50 + len(which), max(500, a.n // 10))
+        scripts = [(mt[j:j + rng.randint(1, 3)], indent_chain(rng, which)) for j in range(0, len(mt), 3)]
+        n += streams.s_treescript(ctx, [], stream=name, scripts=scripts)
+        print('%s done: %d statements, %.0fs' % (name, n, time.time() - t0), flush=True)
+    if want('fmtfull'):
+        rng = random.Random('vff-%d' % a.seed)
+        tx = indent_texts(a.seed * 100 + 99, a.n) + texts(a.seed * 100 + 98, a.n // 2)
+        cases = [(t, format_options(rng)) for t in tx]
+        for j in range(0, len(cases), 4000):
+            streams.s_fmt(ctx, cases[j:j + 4000])
+        print('S-FMT done: %d cases, %.0fs' % (len(cases), time.time() - t0), flush=True)
+
     print()
     bad = 0
     for name, s in sorted(ctx.streams.items()):
@@ -310,6 +393,9 @@ def main():
     for st, ms in seen.items():
         for m in ms:
             print('\nMISMATCH %s\n  input: %s\n  model: %s\n  impl:  %s' % (st, common.short(m['input'], 300), m['model'], m['impl']))
+    exc = {k: v for k, v in sorted(ctx.dist.items()) if ':err ' in k}
+    if exc:
+        print('\nexceptions raised by the real code (and mirrored): %s' % json.dumps(exc, indent=0))
     print('\ntotal mismatches: %d   wall %.0fs' % (bad, time.time() - t0))
     return 1 if bad else 0
 
